@@ -15,15 +15,12 @@ R_GAS = 8.314
 # ------------------------------------------------------------------------------------------------
 # thermodynamic systems (all shipped with the repository)
 
-_TDB_CACHE = {}
-
-
 def _db(name):
+    """A freshly parsed Database per thermodynamics object: kawin adds helper phases to the database it is
+    given (order/disorder handling), so sharing one would make runs depend on each other."""
     from pycalphad import Database
     import kawin.tests.datasets as ds
-    if name not in _TDB_CACHE:
-        _TDB_CACHE[name] = Database(getattr(ds, name))
-    return _TDB_CACHE[name]
+    return Database(getattr(ds, name))
 
 
 ALMGSI_PHASES = ['MGSI_B_P', 'MG5SI6_B_DP', 'B_PRIME_L', 'U1_PHASE', 'U2_PHASE']
